@@ -164,6 +164,19 @@ let () =
             | _ -> () in
           go rest;
           Buffer.contents b);
+  (* lfparse <hex> : the proved link-format reader on a listing -> canonical dump of the links *)
+  register "lfparse" (fun toks ->
+      match toks with
+      | [h] ->
+          (match lf_parse (bytes_of_tok h) with
+           | None -> "unparsable"
+           | Some links ->
+               String.concat " " (List.map (fun (path, attrs) ->
+                 full_hex path ^ "|" ^
+                 String.concat ";" (List.map (fun a ->
+                   full_hex a.lf_aname ^ (match a.lf_avalue with None -> "" | Some v -> "=" ^ full_hex v)) attrs))
+                 links) ^ (if links = [] then "none" else ""))
+      | _ -> failwith "lfparse args");
   register "lfconst" (fun _ ->
       Printf.sprintf "max=%d uint=%d wk=%s" (int_of_z lf_status_max) (int_of_z lf_uint_max)
         (full_hex lf_wk_path))
